@@ -319,6 +319,29 @@ func (Engine) Generate(prop string, r *kit.Rand, tier string) *kit.Scenario[Conf
 			o.Mut, o.At, o.Val = facesim.GenMut(r, 32, 200)
 		}
 		sc.Ops = append(sc.Ops, o)
+		if o.Op == "cmd" && o.Module == "rib" && o.Verb == "register" && o.Mut == "" && o.Garble == 0 && !o.NoParam && prop != "C04" && r.Chance(0.25) {
+			// the same route registered again (a refresh, or an update): every parameter given this time replaces
+			// the stored one, those left out fall back to their defaults
+			o2 := o
+			o2.Shuffle = 0
+			if r.Chance(0.5) {
+				o2.P.Cost = u(uint64(r.Intn(5)))
+			}
+			if r.Chance(0.4) {
+				o2.P.Flags = u(uint64(r.Intn(4)))
+			}
+			switch r.Intn(4) {
+			case 0:
+				o2.P.Expiration = nil
+			case 1, 2:
+				o2.P.Expiration = u(kit.Pick(r, []uint64{1, 1000, 5000, 60000, 3600000}))
+			}
+			if r.Chance(0.3) {
+				o2.GapMs = o.GapMs
+				sc.Ops = append(sc.Ops, Op{Op: "dataset", Face: o.Face, Prefix: "localhost", Module: "rib", Verb: "list"})
+			}
+			sc.Ops = append(sc.Ops, o2, Op{Op: "dataset", Face: o.Face, Prefix: "localhost", Module: "rib", Verb: "list"})
+		}
 	}
 	if c.NoCache && prop != "C04" && r.Chance(0.7) {
 		// "each status dataset lists exactly the current table contents": a dataset, a change of the table behind it
